@@ -1145,6 +1145,33 @@ def rule_r25(repo, run, T):
                   wp.loc([c for c in pos[b] if (c.lineno, c.col_offset) == first_b][0]))
 
 
+def rule_r26(repo, run, T):
+    R = run.rule("C03.R26", "the format unit `O` of Py_BuildValue takes a PyObject: a type whose value is not an object (its "
+                            "typemap has a PY_ctor that makes one) is never paired with `O` and its C value in the result tuple")
+    types = tables.TypeTable(repo)
+    wp = repo.module("wrapp")
+    fn = wp.func("Wrapp.intent_out")
+    # types at risk: no PY_format / PY_build_format of their own (the default is "O"), a PY_ctor, no PY_build_arg
+    risky = []
+    for name, t in sorted(types.types.items()):
+        fmt_ = t.get("PY_build_format") or t.get("PY_format")
+        if t.get("PY_ctor") and not t.get("PY_build_arg") and (fmt_ in (None, "O")):
+            risky.append(name)
+    if not risky:
+        raise AnalysisError("C03.R26: no typemap with a PY_ctor and the default format O (void is one)")
+    # intent_out has an arm for them: a test on the format being "O" together with PY_ctor that switches to the created object
+    arms = [i for i in ast.walk(fn) if isinstance(i, ast.If) and re.search(r"==\s*'O'", ast.unparse(i.test)) and "PY_ctor" in ast.unparse(i.test)]
+    ok = False
+    for i in arms:
+        sets = dict((ast.unparse(a.targets[0]), ast.unparse(a.value)) for a in i.body if isinstance(a, ast.Assign))
+        if sets.get("build_format") == "'N'" and "py_var" in sets.get("vargs", ""):
+            ok = True
+    run.check(R, "wrapp.Wrapp.intent_out:object-format-takes-object", ok,
+              "for %s the tuple is built with format `O` and the C value itself (`{cxx_var}`): Py_BuildValue takes the address for a "
+              "PyObject and the interpreter crashes; alone, the same value is returned through PY_ctor" % risky, wp.loc(fn),
+              sample=dict(types=risky))
+
+
 def run(repo, run, tier):
     tables.check_model_assumptions(repo)
     T = dict(py=tables.StatementTable(repo, "wrapp", "py_statements"),
@@ -1175,3 +1202,4 @@ def run(repo, run, tier):
     rule_r23(repo, run, T)
     rule_r24(repo, run, T)
     rule_r25(repo, run, T)
+    rule_r26(repo, run, T)
